@@ -499,8 +499,15 @@ def is_self_attr(n, selfname='self'):
 
 
 def walk_no_nested(fn):
-    """ast.walk over a function body without descending into nested function/class definitions."""
-    todo = list(fn.body) if hasattr(fn, 'body') and isinstance(fn.body, list) else [fn]
+    """ast.walk over a function body without descending into function/class definitions nested deeper than the body's top level
+    (definitions that are statements of the body itself are walked: local helper closures belong to the method's behaviour).
+    Given any other node (a compound statement, an expression) the whole node is walked, including tests, else branches and handlers."""
+    if isinstance(fn, (ast.FunctionDef, ast.AsyncFunctionDef, ast.Module, ast.ClassDef)):
+        todo = list(fn.body)
+    elif isinstance(fn, ast.Lambda):
+        todo = [fn.body]
+    else:
+        todo = [fn]
     while todo:
         n = todo.pop()
         yield n
